@@ -28,10 +28,12 @@ type DirScript struct {
 	Bufs       []int  `json:"bufs"`        // reader buffer sizes (>= 1), cycled
 	PauseEvery int    `json:"pause_every"` // reader sleeps PauseUs after every PauseEvery reads (0: never)
 	PauseUs    int    `json:"pause_us"`
-	StopAfter  int    `json:"stop_after"`           // reader closes its end once it has read this many bytes (< 0: reads to end-of-stream)
-	ZeroEvery  int    `json:"zero_every,omitempty"` // every ZeroEvery-th Read of the reader uses a zero-length buffer (0: never)
-	Kicks      int    `json:"kicks,omitempty"`      // a third goroutine sets a past write deadline on the writing end this many times
-	KickUs     int    `json:"kick_us,omitempty"`    // ... this far apart; the writer clears the deadline and carries on
+	StopAfter  int    `json:"stop_after"`             // reader closes its end once it has read this many bytes (< 0: reads to end-of-stream)
+	ZeroEvery  int    `json:"zero_every,omitempty"`   // every ZeroEvery-th Read of the reader uses a zero-length buffer (0: never)
+	EarlyCw    string `json:"early_cw,omitempty"`     // "delay" | "read": another goroutine half-closes the writing end while the writer may be inside Write
+	EarlyCwArg int    `json:"early_cw_arg,omitempty"` // ... after this many microseconds / once the peer's reader has consumed this many bytes
+	Kicks      int    `json:"kicks,omitempty"`        // a third goroutine sets a past write deadline on the writing end this many times
+	KickUs     int    `json:"kick_us,omitempty"`      // ... this far apart; the writer clears the deadline and carries on
 }
 
 // StreamScript is one stream: Dir[0] is written by the opener, Dir[1] by the
@@ -56,6 +58,7 @@ type WorkResult struct {
 	Classes    []string
 	MaxOpen    int
 	Bytes      uint64
+	CutShort   int // Writes that a concurrent CloseWrite cut short (ErrWriteClosed)
 }
 
 // dirState is what was observed on one direction of one stream.
@@ -64,6 +67,7 @@ type dirState struct {
 	wErr       error
 	wDone      bool
 	read       uint64
+	readSoFar  atomic.Uint64 // mirror of read for other goroutines
 	rErr       error
 	rDone      bool
 	badAt      int64 // stream offset of the first wrong byte, -1
@@ -356,6 +360,16 @@ wait:
 			}
 		}
 	}
+	for _, ws := range streams {
+		for k := 0; k < 2; k++ {
+			if ws.sc.Dir[k].EarlyCw != "" && ws.dir[k].wErr == multiplexing.ErrWriteClosed {
+				res.CutShort++
+			}
+		}
+	}
+	if res.CutShort > 0 {
+		res.Classes = append(res.Classes, "write-cut-short-by-close-write")
+	}
 	minWin := min(c.Cfg[0].window(), c.Cfg[1].window())
 	smallWindow := uint64(largest) > minWin
 	if res.MaxOpen >= 3 {
@@ -404,6 +418,36 @@ func (w *workRun) writer(ws *workStream, k int) {
 			w.progress.Add(1)
 		}
 	}()
+	// Concurrent half-close: CloseWrite arrives from another goroutine while
+	// the writer may be in the middle of a Write (blocked on the window or
+	// between two data messages). The Write then returns a short count with
+	// ErrWriteClosed; the bytes it reported must all reach the peer before
+	// end-of-stream.
+	closerDone := make(chan struct{})
+	go func() {
+		defer close(closerDone)
+		switch sc.EarlyCw {
+		case "delay":
+			select {
+			case <-stopKicks:
+				return
+			case <-time.After(time.Duration(max(sc.EarlyCwArg, 0)) * time.Microsecond):
+			}
+		case "read":
+			for d.readSoFar.Load() < uint64(max(sc.EarlyCwArg, 0)) {
+				select {
+				case <-stopKicks:
+					return
+				case <-time.After(50 * time.Microsecond):
+				}
+			}
+		default:
+			return
+		}
+		e.cwing.Store(true)
+		e.st.CloseWrite()
+		w.progress.Add(1)
+	}()
 	var buf []byte
 	off := uint64(0)
 	expiries := 0
@@ -451,6 +495,7 @@ chunks:
 	}
 	close(stopKicks)
 	<-kicksDone
+	<-closerDone
 	if sc.End == "close" {
 		e.closing.Store(true)
 		e.st.Close()
@@ -496,6 +541,7 @@ func (w *workRun) reader(ws *workStream, k int) {
 				d.badAt = int64(d.read) + int64(i)
 			}
 			d.read += uint64(got)
+			d.readSoFar.Store(d.read)
 		}
 		if err != nil {
 			d.rErr = err
@@ -574,7 +620,7 @@ func (w *workRun) judgeStream(ws *workStream) string {
 		case d.wErr == multiplexing.ErrWriteClosed:
 			// The writer half-closes only after its last Write; a concurrent
 			// Close of the same end (by its reader) closes writing first.
-			if !wClosed {
+			if !wClosed && ws.sc.Dir[k].EarlyCw == "" {
 				return fmt.Sprintf("%s: Write returned %v before the writer half-closed", name, d.wErr)
 			}
 		case errors.Is(d.wErr, net.ErrClosed):
@@ -584,12 +630,14 @@ func (w *workRun) judgeStream(ws *workStream) string {
 		default:
 			return fmt.Sprintf("%s: Write returned undocumented error %v", name, d.wErr)
 		}
-		// Completeness: every write succeeded (so all data precedes the
-		// writer's close or half-close on the wire) and the reading end was
-		// never closed, so everything must have arrived before end-of-stream.
-		if !rClosed && d.wErr == nil {
-			if d.rErr != io.EOF || d.read != total {
-				return fmt.Sprintf("%s: nothing was closed early, yet the reader ended with %v after %d of %d bytes", name, d.rErr, d.read, total)
+		// Completeness: every byte a Write call reported as written (also the
+		// short count of a Write cut off by a concurrent CloseWrite or Close)
+		// precedes the writer's half-close or close on the wire. So if the
+		// reading end was never closed, the reader must have received exactly
+		// those bytes and then end-of-stream.
+		if !rClosed {
+			if d.rErr != io.EOF || d.read != written {
+				return fmt.Sprintf("%s: the reading end was never closed, yet the reader ended with %v after %d bytes while the Write calls reported %d bytes written (writer's last error: %v)", name, d.rErr, d.read, written, d.wErr)
 			}
 		}
 	}
